@@ -1,1 +1,338 @@
-import Simfile.Model.Dir
+/-
+C20 — assets: which file an asset property resolves to, and the pack banner.
+Vocabulary (Simfile/Lemmas/DirAssets.lean):
+  `AssetL.kindModelled kind` : the kind is in `T.assetDefinitions` and all its presets compile
+  `AssetL.firstWithExt listing ext = listing.find? fun item => endsWith (lower item) ext`
+-/
+import Simfile.Lemmas.DirAssets
+namespace Simfile.C20
+open Simfile Simfile.AssetL
+
+/-! ### 15. every preset of the table is inside the modelled regex fragment -/
+
+theorem kinds : T.assetDefinitions.map (·.1) =
+    ["BANNER".toList, "BACKGROUND".toList, "CDTITLE".toList, "JACKET".toList, "CDIMAGE".toList,
+     "DISC".toList, "MUSIC".toList] := by decide
+
+theorem presets_modelled : ∀ d ∈ T.assetDefinitions, ∀ p ∈ d.2.1, compilePreset p ≠ none := by
+  decide +kernel
+
+theorem kinds_modelled : ∀ kind ∈ T.assetDefinitions.map (·.1), kindModelled kind = true := by
+  decide +kernel
+
+/-- so `assetMatches` answers for each of the seven kinds -/
+theorem assetMatches_total (kind : Str) (hk : kind ∈ T.assetDefinitions.map (·.1)) (name : Str) :
+    assetMatches kind name ≠ none := by
+  rw [assetMatches_of_modelled (kinds_modelled kind hk)]
+  simp
+
+/-- and for no other kind -/
+theorem assetMatches_unknown (kind : Str) (hk : kind ∉ T.assetDefinitions.map (·.1)) (name : Str) :
+    assetMatches kind name = none := by
+  apply assetMatches_none_of_not_modelled
+  unfold kindModelled
+  have : T.assetDefinitions.find? (·.1 = kind) = none := by
+    rw [List.find?_eq_none]
+    intro d hd h
+    apply hk
+    simp only [decide_eq_true_eq] at h
+    rw [← h]
+    exact List.mem_map.mpr ⟨d, hd, rfl⟩
+  rw [this]
+
+-- the compiled forms, for the record
+example : compilePreset "bn$".toList = some (.endsWith_ "bn".toList) := by decide +kernel
+example : compilePreset "^jk_".toList = some (.startsWith_ "jk_".toList) := by decide +kernel
+example : compilePreset "banner".toList = some (.contains_ "banner".toList) := by decide +kernel
+example : compilePreset " disc$".toList = some (.endsWith_ " disc".toList) := by decide +kernel
+example : compilePreset "a.b".toList = none := by decide +kernel
+
+/-! ### 16. a specified file that exists (case-insensitively) wins -/
+
+theorem specified (kind : Str) (c : Char) (cs : Str) (containing : Option (List Str)) (file item : Str)
+    (dirlist : List Str) (h : caseInsensitive containing file = some item) :
+    assetLookup kind (some (c :: cs)) containing file dirlist = some (some (.inl item)) ∧
+    ∃ l, containing = some l ∧ l.find? (fun x => lower x = lower file) = some item := by
+  constructor
+  · rw [assetLookup_eq, viaSpec_some, h]
+  · cases containing with
+    | none => cases h
+    | some l => exact ⟨l, rfl, h⟩
+
+/-- "first entry equal to `file` up to `lower`", spelled out -/
+theorem specified_first (l : List Str) (file item : Str)
+    (h : l.find? (fun x => lower x = lower file) = some item) :
+    lower item = lower file ∧ ∃ pre post, l = pre ++ item :: post ∧ ∀ x ∈ pre, lower x ≠ lower file := by
+  rw [List.find?_eq_some_iff_append] at h
+  obtain ⟨h1, pre, post, h2, h3⟩ := h
+  exact ⟨by simpa using h1, pre, post, h2, fun x hx => by simpa using h3 x hx⟩
+
+/-! ### 17. otherwise: the first entry of the simfile directory matching the kind's patterns -/
+
+theorem fallback (kind : Str) (hk : kind ∈ T.assetDefinitions.map (·.1)) (spec : Option Str)
+    (containing : Option (List Str)) (file : Str) (dirlist : List Str)
+    (h : spec = none ∨ spec = some [] ∨ caseInsensitive containing file = none) :
+    assetLookup kind spec containing file dirlist =
+      some ((dirlist.find? fun f => assetMatches kind f = some true).map .inr) := by
+  rw [assetLookup_eq, (viaSpec_none_iff spec containing file).mpr h]
+  exact scan_modelled (kinds_modelled kind hk) dirlist
+
+/-- the three hypotheses of `fallback` are exactly the negation of the hypotheses of `specified` -/
+theorem specified_or_fallback (spec : Option Str) (containing : Option (List Str)) (file : Str) :
+    (∃ c cs item, spec = some (c :: cs) ∧ caseInsensitive containing file = some item) ∨
+    (spec = none ∨ spec = some [] ∨ caseInsensitive containing file = none) := by
+  rcases spec with _ | (_ | ⟨c, cs⟩)
+  · exact Or.inr (Or.inl rfl)
+  · exact Or.inr (Or.inr (Or.inl rfl))
+  · cases h : caseInsensitive containing file with
+    | none => exact Or.inr (Or.inr (Or.inr rfl))
+    | some item => exact Or.inl ⟨c, cs, item, rfl, rfl⟩
+
+theorem fallback_none_iff (kind : Str) (hk : kind ∈ T.assetDefinitions.map (·.1)) (spec : Option Str)
+    (containing : Option (List Str)) (file : Str) (dirlist : List Str)
+    (h : spec = none ∨ spec = some [] ∨ caseInsensitive containing file = none) :
+    assetLookup kind spec containing file dirlist = some none ↔
+      ∀ f ∈ dirlist, assetMatches kind f ≠ some true := by
+  rw [fallback kind hk spec containing file dirlist h]
+  simp
+
+theorem fallback_first (kind : Str) (hk : kind ∈ T.assetDefinitions.map (·.1)) (spec : Option Str)
+    (containing : Option (List Str)) (file : Str) (dirlist : List Str) (f : Str)
+    (h : spec = none ∨ spec = some [] ∨ caseInsensitive containing file = none) :
+    assetLookup kind spec containing file dirlist = some (some (.inr f)) ↔
+      assetMatches kind f = some true ∧
+      ∃ pre post, dirlist = pre ++ f :: post ∧ ∀ x ∈ pre, assetMatches kind x ≠ some true := by
+  rw [fallback kind hk spec containing file dirlist h]
+  simp only [Option.some.injEq, Option.map_eq_some_iff, Sum.inr.injEq, exists_eq_right]
+  rw [List.find?_eq_some_iff_append]
+  simp
+
+/-! ### 18. every answer names an existing entry -/
+
+theorem exists_inr (kind : Str) (spec : Option Str) (containing : Option (List Str)) (file : Str)
+    (dirlist : List Str) (f : Str)
+    (h : assetLookup kind spec containing file dirlist = some (some (.inr f))) :
+    f ∈ dirlist ∧ assetMatches kind f = some true := by
+  rw [assetLookup_eq] at h
+  cases hv : viaSpec spec containing file with
+  | some item => rw [hv] at h; cases h
+  | none =>
+    rw [hv] at h
+    simp only at h
+    cases hm : dirlist.mapM (fun f => (assetMatches kind f).map fun b => (f, b)) with
+    | none => rw [hm] at h; cases h
+    | some fs =>
+      rw [hm] at h
+      simp only [Option.some.injEq, Option.map_eq_some_iff, Sum.inr.injEq] at h
+      obtain ⟨fb, hfb, rfl⟩ := h
+      have hmem := List.mem_of_find?_eq_some hfb
+      have hb : fb.2 = true := by simpa using List.find?_some hfb
+      have hall := mapM_eq_some _ _ _ hm
+      have : some fb ∈ dirlist.map (fun f => (assetMatches kind f).map fun b => (f, b)) := by
+        rw [hall]; exact List.mem_map.mpr ⟨fb, hmem, rfl⟩
+      obtain ⟨g, hg, hgf⟩ := List.mem_map.mp this
+      cases hmg : assetMatches kind g with
+      | none => rw [hmg] at hgf; cases hgf
+      | some b =>
+        rw [hmg] at hgf
+        simp only [Option.map_some, Option.some.injEq] at hgf
+        subst hgf
+        simp only at hb ⊢
+        subst hb
+        exact ⟨hg, hmg⟩
+
+theorem exists_inl (kind : Str) (spec : Option Str) (containing : Option (List Str)) (file : Str)
+    (dirlist : List Str) (item : Str)
+    (h : assetLookup kind spec containing file dirlist = some (some (.inl item))) :
+    ∃ l, containing = some l ∧ item ∈ l ∧ lower item = lower file ∧ ∃ c cs, spec = some (c :: cs) := by
+  rw [assetLookup_eq] at h
+  cases hv : viaSpec spec containing file with
+  | some it =>
+    rw [hv] at h
+    cases h
+    obtain ⟨l, hl, hf⟩ := viaSpec_mem hv
+    refine ⟨l, hl, List.mem_of_find?_eq_some hf, by simpa using List.find?_some hf, ?_⟩
+    rcases spec with _ | (_ | ⟨c, cs⟩)
+    · cases hv
+    · cases hv
+    · exact ⟨c, cs, rfl⟩
+  | none =>
+    rw [hv] at h
+    simp only at h
+    cases hm : dirlist.mapM (fun f => (assetMatches kind f).map fun b => (f, b)) with
+    | none => rw [hm] at h; cases h
+    | some fs =>
+      rw [hm] at h
+      simp only [Option.some.injEq] at h
+      cases hf : fs.find? (·.2) with
+      | none => rw [hf] at h; cases h
+      | some fb => rw [hf] at h; cases h
+
+/-- an unmodelled kind gives no answer at all as soon as the directory has an entry (outside the model's scope) -/
+theorem unknown_kind_unanswered (kind : Str) (hk : kind ∉ T.assetDefinitions.map (·.1))
+    (containing : Option (List Str)) (file : Str) (f : Str) (rest : List Str) :
+    assetLookup kind none containing file (f :: rest) = none := by
+  rw [assetLookup_eq]
+  simp only [viaSpec]
+  rw [mapM_cons_opt, assetMatches_unknown kind hk]
+  rfl
+
+/-! ### 19. MUSIC matches by extension only -/
+
+theorem audio_exts : T.audioExts = [".mp3".toList, ".oga".toList, ".ogg".toList, ".wav".toList] := by decide
+
+theorem music_by_extension (name : Str) :
+    assetMatches "MUSIC".toList name = some ((extMatch name T.audioExts).isSome) := by
+  have h : T.assetDefinitions.find? (·.1 = "MUSIC".toList) = some ("MUSIC".toList, [], T.audioExts, true) := by
+    decide +kernel
+  unfold assetMatches
+  rw [h]
+  simp
+
+/-- the image kinds never match by extension alone -/
+theorem image_kinds_not_by_extension :
+    ∀ d ∈ T.assetDefinitions, d.1 ≠ "MUSIC".toList → d.2.2.2 = false ∧ d.2.2.1 = T.imageExts := by
+  decide +kernel
+
+/-! ### 20. the pack banner -/
+
+theorem image_exts :
+    T.imageExts = [".png".toList, ".jpg".toList, ".jpeg".toList, ".gif".toList, ".bmp".toList] := by decide
+
+/-- priority is by extension first (png, jpg, jpeg, gif, bmp), by listing position second; a file beside the pack
+directory is considered only when the pack directory has no image at all -/
+theorem pack_banner (listing : List Str) (name : Str) (beside : Str → Bool) :
+    packBanner listing name beside =
+      match T.imageExts.findSome? (fun ext => listing.find? fun item => endsWith (lower item) ext) with
+      | some item => some (true, item)
+      | none => (T.imageExts.find? fun ext => beside (name ++ ext)).map fun ext => (false, name ++ ext) :=
+  packBanner_eq listing name beside
+
+theorem pack_banner_inside (listing : List Str) (name : Str) (beside : Str → Bool) (item : Str) :
+    packBanner listing name beside = some (true, item) ↔
+      ∃ pre ext post, T.imageExts = pre ++ ext :: post ∧
+        listing.find? (fun x => endsWith (lower x) ext) = some item ∧
+        ∀ e ∈ pre, ∀ x ∈ listing, endsWith (lower x) e = false := by
+  rw [packBanner_eq]
+  cases hf : T.imageExts.findSome? (firstWithExt listing) with
+  | some it =>
+    simp only [Option.some.injEq, Prod.mk.injEq, true_and]
+    constructor
+    · rintro rfl
+      obtain ⟨pre, ext, post, h1, h2, h3⟩ := List.findSome?_eq_some_iff.mp hf
+      refine ⟨pre, ext, post, h1, h2, fun e he x hx => ?_⟩
+      have := h3 e he
+      unfold firstWithExt at this
+      rw [List.find?_eq_none] at this
+      simpa using this x hx
+    · rintro ⟨pre, ext, post, h1, h2, h3⟩
+      have : T.imageExts.findSome? (firstWithExt listing) = some item := by
+        rw [List.findSome?_eq_some_iff]
+        refine ⟨pre, ext, post, h1, h2, fun e he => ?_⟩
+        unfold firstWithExt
+        rw [List.find?_eq_none]
+        intro x hx
+        simp [h3 e he x hx]
+      rw [hf] at this
+      exact Option.some.inj this
+  | none =>
+    simp only
+    constructor
+    · intro h
+      cases hb : T.imageExts.find? (fun ext => beside (name ++ ext)) with
+      | none => rw [hb] at h; cases h
+      | some e => rw [hb] at h; cases h
+    · rintro ⟨pre, ext, post, h1, h2, _⟩
+      rw [List.findSome?_eq_none_iff] at hf
+      have := hf ext (by rw [h1]; simp)
+      unfold firstWithExt at this
+      rw [h2] at this
+      cases this
+
+theorem pack_banner_beside (listing : List Str) (name : Str) (beside : Str → Bool) (p : Str) :
+    packBanner listing name beside = some (false, p) ↔
+      (∀ e ∈ T.imageExts, ∀ x ∈ listing, endsWith (lower x) e = false) ∧
+      ∃ pre ext post, T.imageExts = pre ++ ext :: post ∧ p = name ++ ext ∧ beside (name ++ ext) = true ∧
+        ∀ e ∈ pre, beside (name ++ e) = false := by
+  rw [packBanner_eq]
+  cases hf : T.imageExts.findSome? (firstWithExt listing) with
+  | some it =>
+    simp only [Option.some.injEq, Prod.mk.injEq, Bool.true_eq_false, false_and, false_iff]
+    rintro ⟨hno, _⟩
+    obtain ⟨pre, ext, post, h1, h2, _⟩ := List.findSome?_eq_some_iff.mp hf
+    unfold firstWithExt at h2
+    have h3 : endsWith (lower it) ext = true := by
+      have := List.find?_some h2
+      exact this
+    have h4 := hno ext (by rw [h1]; simp) it (List.mem_of_find?_eq_some h2)
+    rw [h4] at h3
+    cases h3
+  | none =>
+    have hno : ∀ e ∈ T.imageExts, ∀ x ∈ listing, endsWith (lower x) e = false := by
+      intro e he x hx
+      have := (List.findSome?_eq_none_iff.mp hf) e he
+      unfold firstWithExt at this
+      rw [List.find?_eq_none] at this
+      simpa using this x hx
+    simp only [Option.map_eq_some_iff, Prod.mk.injEq, true_and]
+    constructor
+    · rintro ⟨ext, hfind, rfl⟩
+      refine ⟨hno, ?_⟩
+      obtain ⟨h1, pre, post, h2, h3⟩ := List.find?_eq_some_iff_append.mp hfind
+      exact ⟨pre, ext, post, h2, rfl, h1, fun e he => by simpa using h3 e he⟩
+    · rintro ⟨_, pre, ext, post, h1, rfl, h2, h3⟩
+      refine ⟨ext, ?_, rfl⟩
+      rw [List.find?_eq_some_iff_append]
+      exact ⟨h2, pre, post, h1, fun e he => by simp [h3 e he]⟩
+
+theorem pack_banner_none (listing : List Str) (name : Str) (beside : Str → Bool) :
+    packBanner listing name beside = none ↔
+      (∀ e ∈ T.imageExts, ∀ x ∈ listing, endsWith (lower x) e = false) ∧
+      ∀ e ∈ T.imageExts, beside (name ++ e) = false := by
+  rw [packBanner_eq]
+  cases hf : T.imageExts.findSome? (firstWithExt listing) with
+  | some it =>
+    simp only [reduceCtorEq, false_iff]
+    rintro ⟨hno, _⟩
+    obtain ⟨pre, ext, post, h1, h2, _⟩ := List.findSome?_eq_some_iff.mp hf
+    unfold firstWithExt at h2
+    have h3 : endsWith (lower it) ext = true := by
+      have := List.find?_some h2
+      exact this
+    have h4 := hno ext (by rw [h1]; simp) it (List.mem_of_find?_eq_some h2)
+    rw [h4] at h3
+    cases h3
+  | none =>
+    have hno : ∀ e ∈ T.imageExts, ∀ x ∈ listing, endsWith (lower x) e = false := by
+      intro e he x hx
+      have := (List.findSome?_eq_none_iff.mp hf) e he
+      unfold firstWithExt at this
+      rw [List.find?_eq_none] at this
+      simpa using this x hx
+    simp only [Option.map_eq_none_iff, List.find?_eq_none]
+    constructor
+    · intro h
+      exact ⟨hno, fun e he => by simpa using h e he⟩
+    · rintro ⟨_, h⟩ e he
+      simp [h e he]
+
+/-! ### non-vacuity -/
+
+def dir0 : List Str := ["notes.txt".toList, "Song-bg.PNG".toList, "song banner.jpg".toList, "song.ogg".toList]
+
+example : "BANNER".toList ∈ T.assetDefinitions.map (·.1) := by decide +kernel
+example : caseInsensitive (some dir0) "SONG.OGG".toList = some "song.ogg".toList := by decide +kernel
+example : assetLookup "MUSIC".toList (some "SONG.OGG".toList) (some dir0) "SONG.OGG".toList dir0 =
+    some (some (.inl "song.ogg".toList)) := by decide +kernel
+example : assetLookup "BANNER".toList none none [] dir0 = some (some (.inr "song banner.jpg".toList)) := by
+  decide +kernel
+example : assetLookup "BACKGROUND".toList (some "missing.png".toList) (some dir0) "missing.png".toList dir0 =
+    some (some (.inr "Song-bg.PNG".toList)) := by decide +kernel
+example : assetLookup "JACKET".toList none none [] dir0 = some none := by decide +kernel
+example : packBanner ["b.jpg".toList, "a.PNG".toList, "c.png".toList] "Pack".toList (fun _ => true) =
+    some (true, "a.PNG".toList) := by decide +kernel
+example : packBanner ["readme".toList] "Pack".toList (fun p => p = "Pack.gif".toList || p = "Pack.bmp".toList) =
+    some (false, "Pack.gif".toList) := by decide +kernel
+example : packBanner ["readme".toList] "Pack".toList (fun _ => false) = none := by decide +kernel
+
+end Simfile.C20
